@@ -164,8 +164,27 @@ pub open spec fn spec_well_formed(tx: Transaction) -> bool {
     &&& tx.fee.0 <= MAX_COINVAL.0
     &&& tx.outputs@.len() <= 255
 }
-pub uninterp spec fn spec_tx_weight(tx: Transaction) -> nat;        // Transaction::weight(covenant_weight_from_bytes), < 2^128
-pub broadcast axiom fn axiom_weight_bound(tx: Transaction) ensures #[trigger] spec_tx_weight(tx) <= u128::MAX;
+/// weight a transaction is charged for one covenant, given as bytes (melvm::covenant_weight_from_bytes: the weight of the decoded program,
+/// 0 when the bytes do not decode -- proved in unit codec); a u128
+pub uninterp spec fn spec_cov_weight_b(b: Seq<u8>) -> nat;
+pub broadcast axiom fn axiom_cov_weight_bound(b: Seq<u8>) ensures #[trigger] spec_cov_weight_b(b) <= u128::MAX;
+/// total weight of the first n covenants of a transaction (unsaturated)
+pub open spec fn cov_sum(covs: Seq<Bytes>, n: int) -> nat decreases n { if n <= 0 { 0 } else { cov_sum(covs, n - 1) + spec_cov_weight_b(covs[n - 1]@) } }
+/// what load_relevant_coins checks (fix: covenant weights that overflow u128): `Transaction::weight` adds the covenants' weights with an
+/// unchecked `Iterator::sum`
+pub open spec fn cov_weights_fit(tx: Transaction) -> bool { cov_sum(tx.covenants@, tx.covenants@.len() as int) <= u128::MAX }
+/// length of the stdcode encoding of a transaction
+pub uninterp spec fn spec_ser_len(tx: Transaction) -> nat;
+pub broadcast axiom fn axiom_ser_len_bound(tx: Transaction) ensures #[trigger] spec_ser_len(tx) <= usize::MAX;
+pub open spec fn sat_u128(x: int) -> nat { if x > u128::MAX { u128::MAX as nat } else if x < 0 { 0 } else { x as nat } }
+/// C05: weight = serialized size + the weight of the covenants + 1000 per output - 1000 per input, each step saturating, never below zero
+/// (Transaction::weight with the covenant weigher, proved from the registry source in unit deptx for transactions with cov_weights_fit)
+pub open spec fn spec_tx_weight(tx: Transaction) -> nat {
+    let a = sat_u128(spec_ser_len(tx) as int + cov_sum(tx.covenants@, tx.covenants@.len() as int) as int);
+    let b = sat_u128(a as int + 1000 * (tx.outputs@.len() as int));
+    sat_u128(b as int - 1000 * (tx.inputs@.len() as int))
+}
+pub broadcast proof fn axiom_weight_bound(tx: Transaction) ensures #[trigger] spec_tx_weight(tx) <= u128::MAX {}
 pub open spec fn spec_base_fee(tx: Transaction, mult: u128) -> nat {
     let p = spec_tx_weight(tx) * (mult as nat);
     (if p > u128::MAX { u128::MAX as nat } else { p }) / 65536
@@ -174,8 +193,6 @@ pub open spec fn spec_output_coinid(tx: Transaction, i: u8) -> CoinID { CoinID {
 impl Transaction {
     #[verifier::external_body] pub fn hash_nosigs(&self) -> (r: TxHash) ensures r == spec_txhash(*self) { unimplemented!() }
     #[verifier::external_body] pub fn output_coinid(&self, index: u8) -> (r: CoinID) ensures r == spec_output_coinid(*self, index) { unimplemented!() }
-    /// Transaction::weight(cov_to_weight): serialized length + covenant weights + output penalty - input boon (saturating)
-    #[verifier::external_body] pub fn weight<F: Fn(&[u8]) -> u128>(&self, cov_to_weight: F) -> (r: u128) ensures r == spec_tx_weight(*self) { unimplemented!() }
 }
 impl CoinID {
     pub fn new(txhash: TxHash, index: u8) -> (r: CoinID) ensures r == (CoinID { txhash, index }) { CoinID { txhash, index } }
